@@ -208,6 +208,26 @@ func (s *ldapService) SetChannel(c pushers.Channel) {
 }
 
 func (s *ldapService) Handle(ctx context.Context, conn net.Conn) error {
+	// The socket, its reader, the bind state and a pending StartTLS are state of one connection,
+	// and the request handlers are closures over the service value they were set up for: serve
+	// every connection with a service value of its own, so that concurrent connections neither
+	// read each other's requests, nor answer on each other's sockets, nor share a login.
+	cs := &ldapService{
+		Server: Server{
+			Handlers:    make([]requestHandler, 0, 4),
+			Credentials: s.Credentials,
+			tlsConfig:   s.tlsConfig,
+			DSE:         s.DSE,
+		},
+		c: s.c,
+	}
+
+	cs.setHandlers()
+
+	return cs.serve(ctx, conn)
+}
+
+func (s *ldapService) serve(ctx context.Context, conn net.Conn) error {
 	s.wantTLS = false
 
 	s.login = "" // set the anonymous authstate
